@@ -283,7 +283,9 @@ def record_real(fi, data, read_size, flavour, expected, inject, rnd):
                 st.log.append(('end', st.read_index))
                 got.append(c)
     except fi.ImageFormatError:
-        exc = 'ImageFormatError'
+        # the expected inspector's own failure may itself be an ImageFormatError (e.g. 'Signature KDMV not
+        # found'): it is the inspector's error that propagates, not the wrapper's mismatch abort
+        exc = 'inspector_error' if (expected and fail_at.get(expected) == st.read_index) else 'ImageFormatError'
         st.log.append(('raise', exc))
     except Exception:
         exc = 'inspector_error'
